@@ -723,29 +723,67 @@ def application(pm, ctx):
     else:
         ctx.violation("C08-f", ku.relpath, "Kauri.fit", norm_src(app[0].test), "the split found is not applied exactly when its own gain is positive", line=app[0].lineno)
     body = app[0]
-    li = [s_ for s_ in ast.walk(body) if isinstance(s_, ast.Assign) and "left_indices" in [n.id for n in ast.walk(s_.targets[0]) if isinstance(n, ast.Name)] and "np.where" in norm_src(s_.value)]
+    # samples of the leaf / of its left part, whatever the spelling: np.where(c)[0], `x, = np.where(c)`, np.flatnonzero(c), np.nonzero(c)[0], or a boolean mask
+    def _positions(value, target=None):
+        """condition c when `value` (assigned to `target`) denotes the positions where c holds; ('mask', c) for a bare comparison"""
+        v = value
+        unpack = isinstance(target, (ast.Tuple, ast.List)) and len(target.elts) == 1
+        if isinstance(v, ast.Subscript) and isinstance(v.slice, ast.Constant) and v.slice.value == 0 and isinstance(v.value, ast.Call):
+            v, unpack = v.value, True
+        if isinstance(v, ast.Call) and v.args:
+            nm = (call_name(v) or "").split(".")[-1]
+            if nm in ("where", "nonzero") and len(v.args) == 1 and unpack:
+                return "pos", v.args[0]
+            if nm == "flatnonzero" and len(v.args) == 1 and not unpack:
+                return "pos", v.args[0]
+        if isinstance(v, ast.Compare):
+            return "mask", v
+        return None
+
+    def _assigns(name):
+        out_ = []
+        for s_ in ast.walk(body):
+            if isinstance(s_, ast.Assign) and len(s_.targets) == 1:
+                t_ = s_.targets[0]
+                names_ = [t_.id] if isinstance(t_, ast.Name) else ([e.id for e in t_.elts if isinstance(e, ast.Name)] if isinstance(t_, (ast.Tuple, ast.List)) and len(t_.elts) == 1 else [])
+                if name in names_:
+                    out_.append(s_)
+        return sorted(out_, key=lambda s_: s_.lineno)
+    from ..pm import canon_node
     site = "Kauri.fit: applied partition"
-    if not li:
-        ctx.unrecognised("C08-f", site, "left_indices is not computed with np.where")
+    la = _assigns("left_indices")
+    cond = None
+    if la:
+        last = la[-1]
+        v = last.value
+        if isinstance(v, ast.Subscript) and norm_src(v.value) == "leaf_indices":
+            sel = v.slice
+            if isinstance(sel, ast.Name):
+                prev = [s_ for s_ in _assigns(sel.id) if s_.lineno < last.lineno]
+                r_ = _positions(prev[-1].value, prev[-1].targets[0]) if prev else None
+            else:
+                r_ = _positions(sel)
+            cond = r_[1] if r_ else None
+    if cond is None:
+        ctx.unrecognised("C08-f", site, "left_indices is not leaf_indices[<positions or mask of a comparison>]")
     else:
-        cond = li[0].value.args[0] if isinstance(li[0].value, ast.Call) and li[0].value.args else None
-        from ..pm import canon_node
-        cond = canon_node(cond) if cond is not None else None
+        cond = canon_node(cond)
         okc = isinstance(cond, ast.Compare) and isinstance(cond.ops[0], ast.LtE) and norm_src(cond.left) == "X[leaf_indices, best_split.feature]" \
             and norm_src(cond.comparators[0]) == "best_split.threshold"
         if okc:
             ctx.ok("C08-f", site, "left part = samples of the leaf with X[:, feature] <= threshold")
         else:
-            ctx.violation("C08-f", ku.relpath, "Kauri.fit", norm_src(li[0]), "the applied partition is not `feature <= threshold` on the samples of the chosen leaf, i.e. not the "
-                          "partition whose gain was evaluated", line=li[0].lineno, site=site)
-    ls = [s_ for s_ in ast.walk(body) if isinstance(s_, ast.Assign) and "leaf_indices" in [n.id for n in ast.walk(s_.targets[0]) if isinstance(n, ast.Name)] and "np.where" in norm_src(s_.value)]
+            ctx.violation("C08-f", ku.relpath, "Kauri.fit", norm_src(la[-1]), "the applied partition is not `feature <= threshold` on the samples of the chosen leaf, i.e. not the "
+                          "partition whose gain was evaluated", line=la[-1].lineno, site=site)
     site = "Kauri.fit: samples of the split leaf"
-    if not ls:
-        ctx.unrecognised("C08-f", site, "leaf_indices is not computed with np.where")
-    elif canon_equal(ls[0].value.args[0], "Z[best_split.leaf] == 1"):
+    ls = _assigns("leaf_indices")
+    r_ = _positions(ls[-1].value, ls[-1].targets[0]) if ls else None
+    if not r_ or r_[0] != "pos":
+        ctx.unrecognised("C08-f", site, "leaf_indices is not the positions where a condition on Z holds")
+    elif canon_equal(r_[1], "Z[best_split.leaf] == 1"):
         ctx.ok("C08-f", site)
     else:
-        ctx.violation("C08-f", ku.relpath, "Kauri.fit", norm_src(ls[0]), "the split is not applied to the samples of best_split.leaf", line=ls[0].lineno, site=site)
+        ctx.violation("C08-f", ku.relpath, "Kauri.fit", norm_src(ls[-1]), "the split is not applied to the samples of best_split.leaf", line=ls[-1].lineno, site=site)
     for tgt, val, why in (("Z[best_split.leaf, right_indices]", "0", "right samples do not leave the split leaf"),
                           ("Z[n_leaves, right_indices]", "1", "right samples do not enter the new leaf n_leaves"),
                           ("Y[k, best_split.leaf]", "0", "the split leaf is not removed from its old cluster"),
@@ -771,21 +809,101 @@ def application(pm, ctx):
         else:
             ctx.violation("C08-f", ku.relpath, "Kauri.fit", norm_src(inc[0]), "n_leaves is not incremented exactly once after every use of the new leaf's id", line=inc[0].lineno)
     # cluster count bump
-    bump = [s_ for s_ in body.body if isinstance(s_, ast.If) and "n_clusters" in norm_src(s_.test) and "best_split.left_target" in norm_src(s_.test)]
-    if not bump:
-        ctx.unrecognised("C08-f", "Kauri.fit: n_clusters", "no update of n_clusters from the recorded targets")
+    inc = _cluster_increment(body.body)
+    site = "Kauri.fit: n_clusters"
+    if inc is None:
+        ctx.unrecognised("C08-f", site, "no update of n_clusters from the recorded targets")
     else:
-        b = bump[0]
-        t1 = norm_src(b.test)
-        e = b.orelse[0] if b.orelse and isinstance(b.orelse[0], ast.If) else None
-        ok = t1 == "best_split.left_target >= n_clusters and best_split.right_target >= n_clusters" and [norm_src(s_) for s_ in b.body if not isinstance(s_, ast.Expr)] == ["n_clusters += 2"] \
-            and e is not None and norm_src(e.test) == "best_split.left_target >= n_clusters or best_split.right_target >= n_clusters" \
-            and [norm_src(s_) for s_ in e.body if not isinstance(s_, ast.Expr)] == ["n_clusters += 1"] and not e.orelse
-        if ok:
+        stmt, table = inc
+        want = {(True, True): 2, (True, False): 1, (False, True): 1, (False, False): 0}
+        if table == want:
             ctx.ok("C08-f", "Kauri.fit: n_clusters grows by the number of new targets")
         else:
-            ctx.violation("C08-f", ku.relpath, "Kauri.fit", norm_src(b.test), "n_clusters is not increased by the number of targets that are new cluster ids (2 if both, 1 if one)",
-                          line=b.lineno)
+            bad = next(k for k in want if table.get(k) != want[k])
+            ctx.violation("C08-f", ku.relpath, "Kauri.fit", norm_src(stmt.test if isinstance(stmt, ast.If) else stmt)[:160],
+                          f"n_clusters is not increased by the number of targets that are new cluster ids (2 if both, 1 if one): with left new = {bad[0]}, right new = {bad[1]} "
+                          f"it grows by {table.get(bad)}", line=stmt.lineno)
+
+
+def _cluster_increment(stmts):
+    """(first statement involved, {(left target is new, right target is new): increment of n_clusters}) from the statements of the application block, by
+    evaluating them for the four truth values of `best_split.left_target >= n_clusters` and `best_split.right_target >= n_clusters`. None = not recognised."""
+    from ..pm import canon_node
+    L, R = "n_clusters <= best_split.left_target", "n_clusters <= best_split.right_target"
+
+    class Unknown(Exception):
+        pass
+    first = []
+
+    def run(l, r):
+        env = {}
+        state = {"inc": 0, "dirty": False}
+
+        def ev(e):
+            e = canon_node(e) if not hasattr(e, "_cn_done") else e
+            t = str(norm_src(e))
+            if t in (L, R):
+                if state["dirty"]:
+                    raise Unknown()
+                return l if t == L else r
+            if isinstance(e, ast.Constant) and isinstance(e.value, (int, bool)):
+                return e.value
+            if isinstance(e, ast.Name) and e.id in env:
+                return env[e.id]
+            if isinstance(e, ast.BoolOp):
+                vals = [ev(v) for v in e.values]
+                return all(vals) if isinstance(e.op, ast.And) else any(vals)
+            if isinstance(e, ast.UnaryOp) and isinstance(e.op, ast.Not):
+                return not ev(e.operand)
+            if isinstance(e, ast.BinOp) and isinstance(e.op, (ast.Add, ast.Sub, ast.Mult)):
+                a_, b_ = ev(e.left), ev(e.right)
+                return a_ + b_ if isinstance(e.op, ast.Add) else (a_ - b_ if isinstance(e.op, ast.Sub) else a_ * b_)
+            if isinstance(e, ast.Call) and isinstance(e.func, ast.Name) and e.func.id in ("int", "bool") and len(e.args) == 1:
+                return int(ev(e.args[0])) if e.func.id == "int" else bool(ev(e.args[0]))
+            if isinstance(e, ast.IfExp):
+                return ev(e.body) if ev(e.test) else ev(e.orelse)
+            raise Unknown()
+
+        def mentions(node):
+            return any(isinstance(n, ast.Name) and n.id == "n_clusters" for n in ast.walk(node))
+
+        def block(ss):
+            for s_ in ss:
+                if isinstance(s_, ast.If):
+                    if not mentions(s_) and not any(isinstance(n, ast.Name) and n.id in env for n in ast.walk(s_.test)):
+                        continue
+                    first.append(s_)
+                    block(s_.body if ev(s_.test) else s_.orelse)
+                elif isinstance(s_, ast.AugAssign) and isinstance(s_.target, ast.Name) and s_.target.id == "n_clusters":
+                    first.append(s_)
+                    v = ev(s_.value)
+                    if not isinstance(s_.op, (ast.Add, ast.Sub)):
+                        raise Unknown()
+                    state["inc"] += int(v) if isinstance(s_.op, ast.Add) else -int(v)
+                    state["dirty"] = True
+                elif isinstance(s_, ast.Assign) and len(s_.targets) == 1 and isinstance(s_.targets[0], ast.Name):
+                    t_ = s_.targets[0].id
+                    if t_ == "n_clusters":
+                        raise Unknown()
+                    if mentions(s_.value) or any(isinstance(n, ast.Name) and n.id in env for n in ast.walk(s_.value)):
+                        try:
+                            env[t_] = ev(s_.value)
+                            first.append(s_)
+                        except Unknown:
+                            env.pop(t_, None)
+                elif isinstance(s_, (ast.For, ast.While)) and mentions(s_) and any(
+                        isinstance(n, (ast.AugAssign, ast.Assign)) and any(isinstance(x, ast.Name) and x.id == "n_clusters" and isinstance(x.ctx, ast.Store) for x in ast.walk(n))
+                        for n in ast.walk(s_)):
+                    raise Unknown()
+        block(stmts)
+        return state["inc"]
+    try:
+        table = {(l, r): run(l, r) for l in (True, False) for r in (True, False)}
+    except Unknown:
+        return None
+    if not first or not any(isinstance(s_, ast.AugAssign) or isinstance(s_, ast.If) for s_ in first):
+        return None
+    return first[0], table
 
 
 # ------------------------------------------------------------------------------------------- controls
